@@ -4,11 +4,11 @@ package fasta
 
 // C13: FASTA records survive write/read, re-wrapping and streaming unchanged.
 //
-// verif:bound C13 record lists of 1..3 records; names 3 symbolic bytes (printable ASCII); sequences of length 0, 1, 5 (quick) plus 65535, 65536, 65537, 70000 (thorough; also one 65536-letter record in quick), every letter symbolic over A-Z a-z * -
+// verif:bound C13 record lists of 1..3 records; names 3 symbolic bytes (printable ASCII); sequences of length 0, 1, 5, 65536 and 262144 (quick) plus 65535, 65537, 70000, 262143, 300000 (thorough), every letter symbolic over A-Z a-z * -
 // verif:bound C13 re-wrapping: the harness's own writer with line widths 1, 3, 60, optional blank lines, ';' comment lines and CRLF line ends
 // verif:bound C13 streaming: channel capacities 0, 1, 1000; schedules explored at synchronisation-point granularity (default run-to-block schedule, its LIFO mirror, and all schedules deviating from it at <= 2 (quick) / 3 (thorough) choice points)
 // verif:assume C13 bufio.Scanner is modelled (ScanLines; a line that does not fit the 64 KiB buffer ends scanning with ErrTooLong unless Scanner.Buffer raised the limit); bytes.Reader/bytes.Buffer modelled; Go's channel FIFO semantics trusted
-// verif:bound C13 outside the claim: gzip (ReadGz*), files, the race detector, pre-emption between synchronisation points, more than 3 records, sequences longer than 70000
+// verif:bound C13 outside the claim: gzip (ReadGz*), files, the race detector, pre-emption between synchronisation points, more than 3 records, sequences longer than 300000
 
 import "bytes"
 
@@ -55,9 +55,9 @@ func Harness_C13_WriteRead() {
 
 // sequences beyond any fixed line buffer
 func Harness_C13_LongSequence() {
-	lens := []int{65536}
+	lens := []int{65536, 262144}
 	if vTier(0, 1) == 1 {
-		lens = []int{65535, 65536, 65537, 70000}
+		lens = []int{65535, 65536, 65537, 70000, 262143, 262144, 300000}
 	}
 	l := lens[vChoice(len(lens))]
 	var recs []Fasta
